@@ -271,7 +271,14 @@ func (w *c16World) check() (string, string) {
 				// where the main clause below requires it. Only entries of certificates THIS
 				// issuer issued must never leave its CRL.
 				foreign := false
-				for _, c := range w.certs {
+				known := append([]*c16Cert{}, w.certs...)
+				if w.keyless != nil {
+					known = append(known, w.keyless) // (thorough-tier false alarm: the key-less issuer revoked while ITS issuer was absent)
+				}
+				for _, sc := range w.subCAs {
+					known = append(known, sc)
+				}
+				for _, c := range known {
 					if c.cert.SerialNumber.String() == s && c.issuer != n {
 						foreign = true
 					}
